@@ -196,6 +196,13 @@ def r12_3(ctx):
         # a preallocated output tensor: its first axis must be the number of output times
         sizes = ys.attrs.get("sizes") or ()
         ok = ok and len(sizes) >= 1 and isinstance(sizes[0], Rat) and nf.equal(sizes[0], nf.sym("len(ts)", True))
+        # ... and it must be a tensor of y0's dtype ("the result has ... y0's dtype whether ts is a tensor or a list"): one
+        # allocated from ts, or in torch's default dtype, comes out in another dtype whenever those differ from y0's
+        dt_ = ys.attrs.get("dtype")
+        rep.check(dt_ == "y0.dtype", "R12.3", astq.loc(fi), f"{fi.key}::R12.3::ys-dtype",
+                  f"the outputs are written into a tensor preallocated with dtype `{dt_ if dt_ is not None else 'the default dtype'}`, "
+                  f"not y0's: with a ts tensor (or a default dtype) of another precision than y0 the result is not in y0's "
+                  f"dtype and ys[0] is a rounded copy of y0", "allocated in y0's dtype")
     rep.check(ok, "R12.3", astq.loc(fi), f"{fi.key}::R12.3::ys-init",
               f"the outputs start as `{writes}`{' in a buffer of sizes ' + str(ys.attrs.get('sizes')) if buffer else ''}, not "
               f"[y0] (first axis len(ts)): ys[0] would not be y0 exactly", "ys = [y0]")
